@@ -191,7 +191,11 @@ func GenPlan(prop string, seed int64, tier string, guards map[string]bool) *Plan
 	p.Config.LateEOF = rand.New(rand.NewSource(seed^0x6c617465)).Intn(4) == 0
 	// likewise: bucket-in-the-Host-header addressing next to path style
 	if prop != "C09" {
-		p.Config.HostBase = rand.New(rand.NewSource(seed^0x686f7374)).Intn(6) == 0
+		share := 6
+		if prop == "C10" {
+			share = 3 // how a key travels is the heart of C10
+		}
+		p.Config.HostBase = rand.New(rand.NewSource(seed^0x686f7374)).Intn(share) == 0
 	}
 	return p
 }
